@@ -346,7 +346,44 @@ def case_resume(p):
     return out
 
 
-CASES = {"verify": case_verify, "resume": case_resume}
+def case_fresh(p):
+    """Two exchanges in one process WITHOUT pinning the key generator: the controller's exchange keys must be fresh, and the
+    complete M2/M4 recorded from exchange 1 replayed into exchange 2 must fail (the signature covers *this* session's keys)."""
+    from aiohomekit.protocol import get_session_keys
+
+    rec, style = p["rec"], p["style"]
+    acc, other, ios, pairing, pin_seed, _ = _setup(rec, 0, p.get("seed", 0))
+    out = []
+    pubs = []
+    recorded = None
+    det = {"rec": rec, "style": style, "fault": "fresh"}
+    for k in range(3):
+        gen = get_session_keys(pairing)
+        st = pairdrv.send(gen, None, None, style)
+        if st.kind != "request":
+            return [("m1-not-yielded", det)]
+        d, _ = pairdrv.req_dict(st.value[0])
+        ios_pub = d.get(hap.T_PK)
+        pubs.append(ios_pub)
+        if k == 0:
+            items, shared, acc_pub = hap.pv_m2(acc, C.det_bytes(pin_seed, "acc-eph"), ios_pub)
+            recorded = tlv8.encode(items)
+            st = pairdrv.send(gen, recorded, st.value[1], style)
+            if st.kind != "request":
+                return [("honest-m2-rejected", dict(det, outcome=st.label))]
+            st = pairdrv.send(gen, tlv8.encode([(hap.T_STATE, b"\x04")]), st.value[1], style)
+            if st.kind != "return":
+                return [("honest-exchange-did-not-return-keys", dict(det, outcome=st.label))]
+        else:
+            st = pairdrv.send(gen, recorded, st.value[1], style)
+            if st.kind != "raise":
+                out.append(("m2-recorded-from-an-earlier-exchange-accepted", dict(det, exchange=k, outcome=st.label)))
+    if len(set(pubs)) != len(pubs):
+        out.append(("controller-exchange-key-not-fresh", dict(det, pubs=[x[:4] for x in pubs])))
+    return out
+
+
+CASES = {"verify": case_verify, "resume": case_resume, "fresh": case_fresh}
 from vt.props import c01_e2e  # noqa: E402
 
 CASES.update(c01_e2e.CASES)
@@ -419,6 +456,7 @@ def run(ctx):
                 for i in range(0, len(plist), 50):
                     work.append(("resume", plist[i : i + 50]))
     work += c01_e2e.plan()
+    work += [("fresh", [{"rec": r, "eph": 0, "style": st, "fault": "fresh"}]) for r in recs for st in pairdrv.STYLES]
     ctx.pmap(_work, work)
     ctx.exhaustive = True
     ctx.bounds.update(records=len(recs), ephemerals=len(ephs), styles=list(pairdrv.STYLES), bits="all bits of every wire byte, signature, identifier, resume tag")
